@@ -52,6 +52,8 @@ type Prog struct {
 	// closures[f] = anonymous functions created (transitively) inside f, in source order
 	callers map[*ssa.Function][]callSite // static call sites per module callee
 	nCalls  int
+	canonEnv env // parameter substitution in effect while canonE runs
+	factMemo map[*ssa.Function][]branchFact
 }
 
 type callSite struct {
